@@ -180,6 +180,12 @@ def check_C09(lines, obs):
         return None
     n, m = c.n, c.m
     sf = c.a3(c.sf)
+    try:
+        v = own_parameters(c, lines)      # "its survival share": the one of the cohort's own parameters
+    except Exception:
+        v = None
+    if v:
+        return v
     for t, ob, ln in c.runs:
         if t[0] == "fds" or not ob.startswith("ok"):
             continue
@@ -205,6 +211,9 @@ def check_C09(lines, obs):
                         return fail(ln, "cohort tables are zero for cohorts later than the year", 0, (float(sc(tt, cc, j)), float(oc(tt, cc, j))))
                     if cc <= tt and not close(sc(tt, cc, j), I(cc, j) * c.dt[cc] * sf(tt, cc, j), scale):
                         return fail(ln, f"cohort stock = inflow*dt*survival share at t={tt}, c={cc}, j={j}", float(I(cc, j) * c.dt[cc] * sf(tt, cc, j)), float(sc(tt, cc, j)))
+                    if cc < tt and I(cc, j) >= 0 and sc(tt, cc, j) > sc(tt - 1, cc, j) + TOL * scale:
+                        return fail(ln, f"a cohort's stock never increases over time for non-negative inflow (t={tt}, c={cc}, j={j})",
+                                    "<= " + str(float(sc(tt - 1, cc, j))), float(sc(tt, cc, j)))
                     if cc <= tt:
                         left = sum(oc(s, cc, j) * c.dt[s] for s in range(tt + 1))
                         if not close(I(cc, j) * c.dt[cc], sc(tt, cc, j) + left, scale):
@@ -293,13 +302,10 @@ def closed_form_sf(cls, age, p):
     return None
 
 
-def check_C08(lines, obs):
-    c = Case(lines, obs)
-    if not c.ok:
-        return None
-    n, m = c.n, c.m
-    # the values handed back by scipy are those of the declared distribution with the given
-    # mean / standard deviation (shape / scale), per cohort and label
+def own_parameters(c, lines):
+    """the values handed back by scipy are those of the declared distribution with the given
+    mean / standard deviation (shape / scale) of the cohort and label itself"""
+    m = c.m
     if c.cls and c.prms:
         for (q, cc), vals in c.svals.items():
             ages = c.ages[(q, cc)]
@@ -314,7 +320,18 @@ def check_C08(lines, obs):
                     want = closed_form_sf(c.cls, a, p)
                     got = float(vals[k * m + j])
                     if want is not None and abs(want - got) > 1e-7:
-                        return fail(lines[1], f"entry = survival function of {c.cls} with parameters {p} at age {float(a)}", want, got)
+                        return fail(lines[1], f"entry = survival function of {c.cls} with parameters {p} (those of cohort {cc}) at age {float(a)}", want, got)
+    return None
+
+
+def check_C08(lines, obs):
+    c = Case(lines, obs)
+    if not c.ok:
+        return None
+    n, m = c.n, c.m
+    v = own_parameters(c, lines)
+    if v:
+        return v
     sf, pdf = c.a3(c.sf), (c.a3(c.pdf) if c.pdf else None)
     wsum = sum(c.w)
     # quadrature rule: documented points
